@@ -3,11 +3,14 @@
    and the sorted view of a data set depends only on its geometry; together with C08 (views only relabel) and C10
    (reflexivity of the predicates) this gives identical sorted representations and a passing comparison for data sets
    that are equal up to relabeling.  The index maps the implementation produces are checked against the specification
-   on every run (T3).  The noisy case (coordinate noise far below tolerance) is tied by differential runs only:
-   statement kept visible in the comment before the example. *)
+   on every run (T3).  Noisy case: coordinates are abstracted to cluster indices (a monotone step function per column);
+   any two arrangements sorted by class vector are pointwise within tolerance; the premises are decided per run by a
+   verified checker on the implementation's sorted views. *)
 From Coq Require Import ZArith Arith Bool List Permutation.
-From FC Require Import Model.SortSpec Proofs.SortP.
+From Coq Require Import QArith.
+From FC Require Import Model.Scalar Model.Mesh Model.SortSpec Model.FuzzySort Proofs.SortP Proofs.FuzzySortP.
 Import ListNotations.
+Local Open Scope nat_scope.
 
 Theorem C02_sorted_points_unique : forall l1 l2 : list zpoint,
   sorted_strict l1 = true -> sorted_strict l2 = true -> Permutation l1 l2 -> l1 = l2.
@@ -33,12 +36,35 @@ Theorem C02_check_point_sort_sound : forall P p,
 Proof. intros P p H. apply sorted_strict_spec. exact H. Qed.
 Print Assumptions C02_check_point_sort_sound.
 
-(* full statement for noisy data (not proved; tied by the differential runs of the check):
-   for data sets equal up to relabeling whose coordinates carry independent noise <= eps with 2*eps <= atol, and whose
-   distinct coordinate values are separated by more than the tolerance, the default comparison reports equal domains and
-   passes every field. *)
+(* ---- coordinates with noise far below the tolerance ------------------------------------------------------------ *)
+(* cluster index of a coordinate: monotone, so ordering by value and ordering by class never contradict each other *)
+Theorem C02_class_index_monotone : forall bs u v, (u <= v)%Q -> (kappa bs u <= kappa bs v)%Z.
+Proof. exact kappa_monotone. Qed.
+Print Assumptions C02_class_index_monotone.
+
+(* ANY two arrangements with strictly increasing class vectors over the same collection of classes are within tolerance
+   of each other point by point, provided points of one class are within tolerance (noise below tolerance) *)
+Theorem C02_noisy_sorted_points_close : forall bss rel abs (v1 v2 : list point),
+  sorted_strict (map (cls bss) v1) = true -> sorted_strict (map (cls bss) v2) = true ->
+  Permutation (map (cls bss) v1) (map (cls bss) v2) ->
+  (forall p q, In p v1 -> In q v2 -> cls bss p = cls bss q -> point_close rel abs p q = true) ->
+  points_close rel abs v1 v2 = true.
+Proof. exact noisy_sorted_points_close. Qed.
+Print Assumptions C02_noisy_sorted_points_close.
+
+(* the premises are decided at run time on the views the implementation produced, by this verified checker *)
+Theorem C02_check_noisy_sorted_sound : forall bss rel abs v1 v2,
+  check_noisy_sorted bss rel abs v1 v2 = true -> points_close rel abs v1 v2 = true.
+Proof. exact check_noisy_sorted_sound. Qed.
+Print Assumptions C02_check_noisy_sorted_sound.
+
 Example C02_nonvacuous :
   let P := [[2;0]; [0;1]; [0;0]; [1;5]]%Z in
   check_point_sort P [2;1;3;0] = true /\ check_point_sort P [1;2;3;0] = false /\
-  pos_of (map (fun i => nth i P []) [2;1;3;0]) [1;5]%Z = Some 2.
+  pos_of (map (fun i => nth i P []) [2;1;3;0]) [1;5]%Z = Some 2 /\
+  (* two noisy copies of the points (0,0),(0,1),(1,0) in different order of arrival, both sorted by class *)
+  check_noisy_sorted [[1#2]; [1#2]] 0%Q (1#100)
+     [[0#1; 1#1000]; [1#1000; 1#1]; [1#1; 0#1]] [[1#1000; 0#1]; [0#1; 999#1000]; [999#1000; 1#1000]] = true /\
+  check_noisy_sorted [[1#2]; [1#2]] 0%Q (1#100)
+     [[1#1000; 1#1]; [0#1; 1#1000]; [1#1; 0#1]] [[1#1000; 0#1]; [0#1; 999#1000]; [999#1000; 1#1000]] = false.
 Proof. vm_compute. repeat split; reflexivity. Qed.
